@@ -367,8 +367,11 @@ def main(argv=None):
         wall_s=round(wall, 2),
         violations=len(reproduced),
     )
-    os.makedirs(os.path.join(ROOT, "evidence"), exist_ok=True)
-    json.dump(ev, open(os.path.join(ROOT, "evidence", f"{pid}.json"), "w"), indent=1, default=str)
+    if os.path.realpath(REPO) == "/repo" and not args.only:
+        # evidence describes runs of the registered command against /repo itself; runs against scratch copies (self-test, seeded changes)
+        # or of a shard subset do not overwrite it
+        os.makedirs(os.path.join(ROOT, "evidence"), exist_ok=True)
+        json.dump(ev, open(os.path.join(ROOT, "evidence", f"{pid}.json"), "w"), indent=1, default=str)
 
     for ln in kf_lines:
         print(ln)
